@@ -213,7 +213,10 @@ type cuse struct {
 
 // containerUses: for a loaded map/slice value, the instructions that actually
 // touch the container (the lock must be held there, not merely at the load).
-func containerUses(v *ssa.UnOp) []cuse {
+func containerUses(v *ssa.UnOp) []cuse { return containerUsesOf(v) }
+
+// containerUsesOf does the same for any SSA value holding the container (a loaded field, a parameter).
+func containerUsesOf(v ssa.Value) []cuse {
 	switch v.Type().Underlying().(type) {
 	case *types.Map, *types.Slice:
 	default:
@@ -421,12 +424,69 @@ func checkC15(c *Ctx, r *Report) {
 							continue
 						}
 					}
+					// a read inside a helper that is handed the metadata pointer (metaExpired(meta)): decided per call site —
+					// the caller holds one of the locks, or what it passes is a private copy (the janitor's snapshot)
+					if !a.write && !(held["S"] || hasMap(held)) && len(li.Callers[a.fn]) > 0 {
+						var base ssa.Value
+						if u, isU := a.in.(*ssa.UnOp); isU {
+							if fa, isFA := u.X.(*ssa.FieldAddr); isFA {
+								base = fa.X
+							}
+						}
+						if prm, isP := resolveVal(base).(*ssa.Parameter); base != nil && isP && prm.Parent() == a.fn {
+							pi := -1
+							for i, q := range a.fn.Params {
+								if q == prm {
+									pi = i
+								}
+							}
+							everySite := pi >= 0
+							for _, cs := range li.Callers[a.fn] {
+								hs := li.HeldMust(cs.in)
+								if hs["S"] || hasMap(hs) {
+									continue
+								}
+								call, okc := asCall(cs.in)
+								if !okc || pi >= len(callArgs(call)) {
+									everySite = false
+									continue
+								}
+								var srcs []*ssa.Parameter
+								arg := callArgs(call)[pi]
+								derivesFrom(arg, func(v ssa.Value) bool {
+									if q, ok := v.(*ssa.Parameter); ok && types.Identical(q.Type(), arg.Type()) {
+										srcs = append(srcs, q)
+									}
+									return false
+								})
+								okArg := len(srcs) > 0
+								for _, q := range srcs {
+									if !privateParam(li, q, 0) {
+										okArg = false
+									}
+								}
+								if !okArg {
+									everySite = false
+								}
+							}
+							if everySite {
+								continue
+							}
+						}
+					}
 					if a.write && !(heldX["S"] && hasMap(heldX)) {
 						agg[kk] = append(agg[kk], fmt.Sprintf("%s at %s without both the key's shard lock and the map lock held exclusively (must-hold=%s, exclusive=%s)", a.what, c.InstrPos(a.in), held, heldX))
 					} else if !a.write && !(held["S"] || hasMap(held)) {
 						agg[kk] = append(agg[kk], fmt.Sprintf("%s at %s with neither the key's shard lock nor the map lock (must-hold=%s)", a.what, c.InstrPos(a.in), held))
 					}
 					continue
+				}
+				// the container is handed to a helper together with its guard (snapshotMetadata(&c.mu, c.entries, …)): decided
+				// inside the helper — every use of the container parameter there happens with the mutex parameter locked
+				if strings.HasPrefix(a.what, "passed to ") && !held[LockClass(guard)] {
+					if call, okc := a.in.(*ssa.Call); okc && guardedInHelper(li, call, LockClass(guard)) {
+						continue
+					}
 				}
 				if a.write && !heldX[guard] {
 					agg[kk] = append(agg[kk], fmt.Sprintf("%s at %s without %s held exclusively (must-hold=%s, exclusive=%s)", a.what, c.InstrPos(a.in), guard, held, heldX))
@@ -1051,4 +1111,53 @@ func isLoopBodyOf(fn *ssa.Function) bool {
 		}
 	})
 	return found
+}
+
+// guardedInHelper: call hands a same-package helper both a container and the mutex of class guard that protects it;
+// in the helper every use of the container parameter (lookup, range, insert, delete, len, passing on) is made with
+// the mutex parameter's lock held — exclusively for writes.
+func guardedInHelper(li *LockInfo, call *ssa.Call, guard LockClass) bool {
+	h := helperBody(call)
+	if h == nil {
+		return false
+	}
+	args := callArgs(call)
+	mi := -1
+	for i, a := range args {
+		if isMutexPtr(a.Type()) {
+			if cl, ok := li.classify(a, 0); ok && cl == guard {
+				mi = i
+			}
+		}
+	}
+	if mi < 0 || mi >= len(h.Params) {
+		return false
+	}
+	mcl, ok := li.classify(h.Params[mi], 0)
+	if !ok {
+		return false
+	}
+	okAll, nUse := true, 0
+	for i, a := range args {
+		if i >= len(h.Params) {
+			break
+		}
+		switch a.Type().Underlying().(type) {
+		case *types.Map, *types.Slice:
+		default:
+			continue
+		}
+		for _, u := range containerUsesOf(h.Params[i]) {
+			nUse++
+			in := u.in
+			if u.write {
+				if !li.HeldMustX(in)[mcl] {
+					okAll = false
+				}
+			} else if !li.HeldMust(in)[mcl] {
+				okAll = false
+			}
+		}
+	}
+	return okAll && nUse > 0
 }
